@@ -297,6 +297,9 @@ package pq
 //@   requires 0 <= index && index < len(pq.heap.a)
 //@   ensures len(pq.heap.a) == old(len(pq.heap.a)) && (pq.heap.setIndex != nil ==> distinct(pq.heap)) && idxOK(pq.heap)
 //@   ensures forall y any :: old(member(pq.heap, y)) <==> member(pq.heap, y)
+//@   // the order is restored whichever element it is (also the last one): if
+//@   // only the element at index is out of place, the heap is ordered afterwards
+//@   ensures [#order] swo(pq.heap.less) && old(exceptDownN(pq.heap, index, len(pq.heap.a)) && heapExceptN(pq.heap, index, len(pq.heap.a)) && kidsOKn(pq.heap, index, len(pq.heap.a))) ==> heapOKn(pq.heap, len(pq.heap.a))
 //@   modifies elems(pq.heap.a)
 //@   props C20
 //@
